@@ -174,7 +174,7 @@ Theorem lock_table_asis_refuted :
      "cachedstore.store.GetBulk"; "cachedstore.store.Query"; "cachedstore.store.Delete"; "cachedstore.store.Batch";
      "cachedstore.store.Flush"; "batchedstore.store.Get"; "batchedstore.store.GetTags"; "batchedstore.store.GetBulk";
      "batchedstore.store.Query"; "batchedstore.store.Batch"; "localkms.LocalKMS.writeToStore"; "ws.getConnPool"; "did.Store.SaveDID";
-     "leveldb.Provider.OpenStore"]%string /\
+     "wallet.walletSessionManager.getSession"; "wallet.contentStore.safeSave"; "leveldb.Provider.OpenStore"]%string /\
   TableAsIs.split_rmw = [("batchedstore.store.Batch", "batchedstore.store.currentBatch");
                          ("leveldb.Provider.OpenStore", "leveldb.Provider.dbs")]%string.
 Proof. vm_compute. repeat split; reflexivity. Qed.
@@ -258,5 +258,5 @@ Proof. vm_compute. repeat split. Qed.
 
 Example table_nonvacuous :
   (List.length Gen_C13.table >= 100)%nat /\ (List.length shared_fields >= 12)%nat /\
-  (List.length modelled_atomic = 48)%nat /\ (List.length all_locks >= 15)%nat.
+  (List.length modelled_atomic = 50)%nat /\ (List.length all_locks >= 15)%nat.
 Proof. vm_compute. repeat split; repeat constructor. Qed.
